@@ -63,6 +63,13 @@ type Contract struct {
 	File        string
 	Line        int
 	Lets        []*LetClause // ghost lets usable in ensures
+	AtCall      []AtCallClause
+	Closure     int // >0: the contract is about the n-th function literal of the named function
+}
+
+type AtCallClause struct {
+	Callee string
+	Clause *Clause
 }
 
 type LetClause struct {
@@ -431,7 +438,7 @@ func firstWord(s string) string {
 }
 
 var contractKeywords = map[string]bool{"func": true, "emitted": true, "requires": true, "ensures": true, "pure": true,
-	"assume-contract": true, "modifies": true, "existing": true, "decreases": true, "loop": true, "noinline": true, "let": true, "fresh": true}
+	"assume-contract": true, "modifies": true, "existing": true, "decreases": true, "loop": true, "noinline": true, "let": true, "fresh": true, "at-call": true, "closure": true}
 
 func splitName(t string) (name, rest string) {
 	// optional "name:" prefix, name is an identifier with dots/brackets
@@ -537,6 +544,25 @@ func (w *World) LoadContractFile(path string, pkgShort string) error {
 				return fail(err)
 			}
 			cur.Lets = append(cur.Lets, &LetClause{Name: strings.TrimSpace(rest[:i]), E: e, Text: rest})
+		case "closure":
+			n, err := strconv.Atoi(strings.TrimSpace(rest))
+			if err != nil {
+				return fail(fmt.Errorf("closure ordinal: %v", err))
+			}
+			cur.Closure = n
+		case "at-call":
+			// at-call <callee> requires [name:] <expr>
+			f := strings.Fields(rest)
+			if len(f) < 3 || f[1] != "requires" {
+				return fail(fmt.Errorf("at-call clause needs: at-call <callee> requires <expr>"))
+			}
+			text := strings.TrimSpace(strings.SplitN(rest, " requires ", 2)[1])
+			name, text := splitName(text)
+			e, err := ParseCExpr(text)
+			if err != nil {
+				return fail(err)
+			}
+			cur.AtCall = append(cur.AtCall, AtCallClause{Callee: f[0], Clause: &Clause{Name: name, Text: text, E: e, Line: l.line, File: rel}})
 		case "loop":
 			// loop <n> invariant <expr> | loop <n> decreases <expr>
 			f := strings.Fields(rest)
